@@ -31,6 +31,8 @@ def run(ctx):
     _r10(ctx)
     _r11(ctx)
     _r12(ctx)
+    _r13(ctx)
+    _r14(ctx)
     # a panic in the task that serves a TCP upstream stalls every query on that connection: the oneshot replies it unwraps are
     # safe only while their receivers are awaited without a deadline (the rule is C05's side rule S4, evaluated here as well)
     from . import c05
@@ -38,6 +40,60 @@ def run(ctx):
     c05.side_rules_5(ctx)          # ... and so does a metric whose registration failed
     # shared clause: an upstream reply reaches the query it answers (waiters keyed by query id)
     ctx.include("C03", rules=("R8", "R3"))
+
+
+def _r14(ctx):
+    """a TCP connection that was accepted is served: in the accept loop's step (`run_tcp_listener`) every successful return comes after
+    the connection was handed to its task (tokio::spawn dominates each `Ok`). An admission test between accept and spawn — a
+    connection counter, say — turns a miscounted slot into clients that are accepted and closed without a word, TCP retries of
+    truncated UDP replies among them."""
+    P = ctx.P
+    n = 0
+    for b in P.bodies.values():
+        if not (b.id.startswith("erbium::dns::DnsListenerHandler::run_tcp_listener::{closure#0}") and b.kind == "coroutine" and b.id.count("{closure") == 1):
+            continue
+        cfg = cfg_of(b)
+        spawns = [bb for bb, tm in b.calls() if (callee_name(tm) or "") in ("tokio::spawn", "tokio::task::spawn") or (callee_name(tm) or "").endswith("::spawn")]
+        for bb, idx, st in b.stmts():
+            rv = st.get("rv")
+            if rv and rv["k"] == "agg" and rv.get("variant") == "Ok" and tuple(st["p"]) == (0,):
+                n += 1
+                ctx.saw(b)
+                ctx.check(any(cfg.dominates(sb, bb) for sb in spawns), "R14", "accepted-connection-is-handed-to-its-task", ctx.where(b, st["sp"]),
+                          "run_tcp_listener returns Ok without having spawned the connection's task: the accepted connection is dropped unserved")
+    if ctx.config in ("default", "dns"):
+        ctx.floor("R14", "successful returns of the accept step", n, 1)
+
+
+def _r13(ctx):
+    """every transmission of an upstream query is the query its reply will be matched with: what the retry loop of `send_udp` hands to
+    `send_single_udp` is a copy of the query it was given, untouched. The reply's id is compared with the id of that query (C03.R3's
+    clause, in handle_query_internal); a retransmission that is given an id of its own is answered correctly by the upstream and
+    thrown away as a forgery."""
+    P = ctx.P
+    n = 0
+    for b in P.bodies.values():
+        if not (b.id.startswith("erbium::dns::outquery::OutQuery::send_udp") and b.kind == "coroutine"):
+            continue
+        T = terms(P, b)
+        for bb, tm in b.calls():
+            if not (callee_name(tm) or "").endswith("OutQuery::send_single_udp") or len(tm["args"]) < 3:
+                continue
+            n += 1
+            ctx.saw(b)
+            a = norm(T.call_args(bb)[2])
+            src = a
+            if src[0] == "call" and len(src[2]) == 1 and str(src[1]).rsplit("::", 1)[-1] == "clone":
+                src = norm(src[2][0])
+            while src[0] in ("ref", "deref"):
+                src = norm(src[1])
+            given = src[0] == "param" or (src[0] == "field" and norm(src[1])[0] in ("param", "deref"))
+            pl = op_place(tm["args"][2])
+            touched = touched_after_copy(P, b, pl[0]) if pl is not None and len(pl) == 1 else ["?"]
+            ctx.check(given and not touched, "R13", "each-transmission-is-the-query-as-given", ctx.where(b, tm["sp"]),
+                      "send_single_udp must be handed a copy of send_udp's own query, unmodified (is %s; modified at %s)" % (show(a)[:80], touched or "-"))
+    if ctx.config in ("default", "dns"):
+        ctx.floor("R13", "transmissions in the UDP retry loop", n, 1)
 
 
 def _r12(ctx):
